@@ -17,3 +17,69 @@ Theorem C14_table_facts :
   /\ T8_shipped_sets_closed = true.
 Proof. exact shipped_table_facts. Qed.
 Print Assumptions C14_table_facts.
+
+(* ---- Part 2: the lifting theorem.  For the GENERATED VisionsTypeset.__init__ / build_graph /
+   check_isolates / check_cycles / find_root_node, instantiated with the REGENERATED shipped table,
+   any order [si] in which Python iterates a freshly built set, any warning list on entry:
+   EVERY parent-closed list of shipped types containing Generic (in every supply order, with
+   duplicates) constructs without raising, and the result satisfies [wf_result]:
+     root = Generic; nodes of the relation graph = the given types;
+     edges = exactly the relations declared on included types whose source is included, each
+     carrying its own relation object and style dashed iff inferential;
+     identity graph = the identity relations (solid), no edge into Generic, exactly one parent
+     for every other type, every type reachable from Generic, node set = the given types as soon
+     as there are two;
+     a rank strictly increases along every edge and check_cycles finds no cycle;
+     warnings = exactly one site-3 warning per declared relation whose source type is absent. *)
+From Coq Require Import Permutation.
+From V Require Import NxFacts Graph_bridge GraphWF ShippedGraph.
+
+Theorem C14_every_parent_closed_subset_is_well_formed :
+  forall (si : list ty -> list ty) (rnd : list ty -> list (ty * ty * option style) -> Z),
+    (forall l, NoDup l -> Permutation (si l) l) ->
+  forall (types : list ty) (w0 : list (warning ty)),
+    In tGeneric types -> parent_closed types = true ->
+    let X := shipped_ctx_with si rnd in
+    exists ts w1, VT_init X (VT_blank X) types w0 = Ok (tt, ts, w1) /\ wf_result X rk (mkset X types) w0 ts w1.
+Proof. exact shipped_typesets_well_formed. Qed.
+Print Assumptions C14_every_parent_closed_subset_is_well_formed.
+
+Theorem C14_supply_order_is_irrelevant :
+  forall (si : list ty -> list ty) (rnd : list ty -> list (ty * ty * option style) -> Z),
+    (forall l, NoDup l -> Permutation (si l) l) ->
+  forall types1 types2 w0 ts1 ts2 w1 w2,
+    let X := shipped_ctx_with si rnd in
+    In tGeneric types1 -> parent_closed types1 = true -> (forall t, In t types1 <-> In t types2) ->
+    parent_closed types2 = true ->
+    VT_init X (VT_blank X) types1 w0 = Ok (tt, ts1, w1) ->
+    VT_init X (VT_blank X) types2 w0 = Ok (tt, ts2, w2) ->
+    Permutation (g_nodes (relation_graph ts1)) (g_nodes (relation_graph ts2)) /\
+    (forall u v, edge_at ty_eqb (relation_graph ts1) u v = edge_at ty_eqb (relation_graph ts2) u v) /\
+    (forall u v, edge_at ty_eqb (base_graph ts1) u v = edge_at ty_eqb (base_graph ts2) u v).
+Proof. exact shipped_order_independent. Qed.
+Print Assumptions C14_supply_order_is_irrelevant.
+
+(* the general statement, for ANY relation table with the table facts (user-defined types included) *)
+Theorem C14_general :
+  forall (T D St L F : Type) (X : ctx T D St L F) (rk : T -> nat),
+    (forall a b, T_eqb X a b = true <-> a = b) ->
+    (forall t r, In r (relations X t) -> type_ r = t) ->
+    (forall l, NoDup l -> Permutation (set_iter X l) l) ->
+    (forall t, is_generic X t = true <-> t = Generic X) ->
+    relations X (Generic X) = [] ->
+    (forall t r r', In r (relations X t) -> In r' (relations X t) -> related_type r = related_type r' -> r = r') ->
+    (forall t r r', In r (relations X t) -> In r' (relations X t) -> inferential r = false -> inferential r' = false -> r = r') ->
+    (forall t r, In r (relations X t) -> rk (related_type r) < rk t) ->
+    forall types w0,
+      In (Generic X) types ->
+      (forall t, In t types -> t <> Generic X -> exists r, In r (relations X t) /\ inferential r = false /\ In (related_type r) types) ->
+      exists ts w1, VT_init X (VT_blank X) types w0 = Ok (tt, ts, w1) /\ wf_result X rk (mkset X types) w0 ts w1.
+Proof. intros T D St L F. exact typeset_well_formed. Qed.
+Print Assumptions C14_general.
+
+(* non-vacuity: the three shipped typesets meet the hypotheses *)
+Example C14_hypotheses_hold_for_shipped_sets :
+  (In tGeneric standard_set /\ parent_closed standard_set = true) /\
+  (In tGeneric geometry_set /\ parent_closed geometry_set = true) /\
+  (In tGeneric complete_set /\ parent_closed complete_set = true).
+Proof. vm_compute. intuition. Qed.
